@@ -52,7 +52,12 @@ for pid in sorted(CHECKS):
         "level_claimed": {"category": c["level"], "text": c["level_text"],
                           "design_ref": "DESIGN.md section 4, " + pid},
         "level_note": c["level_note"],
-        "technique": c["technique"],
+        "technique": c["technique"] + (
+            "; thorough tier adds a coverage-guided stage: libFuzzer (-fsanitize=fuzzer,address,undefined, library "
+            "built with fuzzer-no-link) mutating the same plan tape against the same oracle, %d processes x %d s, "
+            "starting corpus = the committed replays" % (c["thorough"]["fuzz"].get("workers", 8),
+                                                          c["thorough"]["fuzz"].get("seconds", 120))
+            if c["thorough"].get("fuzz") else ""),
     })
 json.dump(m, open(os.path.join(VERIF, "MANIFEST.json"), "w"), indent=1)
 print("MANIFEST.json written with", len(m["checks"]), "checks")
